@@ -26,7 +26,7 @@ CLASSES = {
     # an in-memory task in the middle of the chain: it has no location of its own but its key must carry the difference on
     'K3': {'name': 't3', 'group': '', 'params': [], 'inputs': [{'by': 'name', 'ref': 'g:h:t2'}], 'kind': 'memory', 'run_args': []},
     'K4': {'name': 't4', 'group': '', 'params': [], 'inputs': [{'by': 'class', 'ref': 'K3'}], 'kind': 'json', 'run_args': []},
-    'K5': {'name': 't5', 'group': '', 'params': [{'name': 'pc', 'default': 0}], 'inputs': [{'by': 'class', 'ref': 'K4'}], 'kind': 'json', 'run_args': []},
+    'K5': {'name': 't5', 'group': '', 'params': [{'name': 'pc', 'default': 0, 'nic': 'pc_cfg'}], 'inputs': [{'by': 'class', 'ref': 'K4'}], 'kind': 'json', 'run_args': []},
     'K6': {'name': 'br', 'group': '', 'params': [], 'inputs': [{'by': 'class', 'ref': 'K2'}, {'by': 'name', 'ref': 'opt', 'default': None}], 'kind': 'json', 'run_args': []},
     'K7': {'name': 'opt', 'group': '', 'params': [{'name': 'po', 'default': 1}], 'inputs': [], 'kind': 'json', 'run_args': []},
     # parameters whose default is left out of the key (dont_persist_default_value): a value that merely LOOKS like the default
@@ -200,7 +200,7 @@ def run(ctx):
             elif k == 1:
                 ca = locations(mod, data, 'ca', A, tasks=CHAIN + ['K7']); cb = locations(mod, data, 'cb', A, tasks=CHAIN + ['K7'], extra={'po': 2})
             else:
-                ca = locations(mod, data, 'ca', A); cb = locations(mod, data, 'cb', A, extra={'pc': 1})
+                ca = locations(mod, data, 'ca', A); cb = locations(mod, data, 'cb', A, extra={'pc_cfg': rng.choice([1, '0', [0], None])})      # a parameter configured under another name (name_in_config)
         except (TypeError, ValueError):
             continue
         pairs.append((A, {'wiring': k}, 'wiring')); chains.extend([ca, cb])
